@@ -130,6 +130,20 @@ def extract(repo, o):
     o.defn("TEXT_WRITER_USES_to_label", "Bool", "true" if calls(find_func(tree, "write_text"), "to_label") else "false")
     o.defn("TEXT_READER_USES_from_label", "Bool", "true" if calls(find_func(tree, "read_text"), "from_label") else "false")
 
+    # read_tab: is the gene column read as text (converters={"gene": str}) or left to pandas' NA / dtype inference?
+    tree, _src = parse(os.path.join(tab, "tab.py"))
+    frt = find_func(tree, "read_tab")
+    as_text = False
+    for n in ast.walk(frt):
+        if isinstance(n, ast.Call) and getattr(n.func, "attr", "") == "read_csv":
+            for kw in n.keywords:
+                if kw.arg == "converters" and isinstance(kw.value, ast.Dict):
+                    for k, v in zip(kw.value.keys, kw.value.values):
+                        if isinstance(k, ast.Constant) and k.value == "gene" and isinstance(v, ast.Name) and v.id == "str":
+                            as_text = True
+    o.defn("TAB_GENE_AS_TEXT", "Bool", "true" if as_text else "false",
+           'tab.read_tab reads the "gene" column as text (converters={"gene": str})')
+
     # GenomicArray.sort: keys and kind
     tree, _src = parse(os.path.join(repo, "skgenome", "gary.py"))
     fs = find_func(tree, "sort", cls="GenomicArray")
